@@ -446,6 +446,66 @@ theorem simpsonW_exact_cubic (a h c0 c1 c2 c3 : ℚ) (k : ℕ) (hk : 1 ≤ k) :
 example : ∑ j ∈ range 3, simpsonW 3 (fun i => (i : ℚ)) j * ((j : ℚ) ^ 3) = 4 := by
   norm_num [Finset.sum_range_succ, simpsonW]
 
+/-- **The Gram matrix of a tensor-product basis is the Kronecker product of the marginal Gram matrices, in the order
+of the functions**: the 2-D inner product of `φ_a ⊗ ψ_b` and `φ_c ⊗ ψ_d` on a product grid is
+`⟨φ_a, φ_c⟩ · ⟨ψ_b, ψ_d⟩` (what `Basis.inner_product` must return at row `a·K₂+b`, column `c·K₂+d` for a generated
+2-D basis; checked on the implementation by the `factorises` clause). -/
+theorem inner2_tensor (n₁ n₂ : ℕ) (t₁ t₂ φa φc ψb ψd : ℕ → ℚ) :
+    inner2 n₁ n₂ t₁ t₂ (fun p q => φa p * ψb q) (fun p q => φc p * ψd q)
+      = inner n₁ t₁ φa φc * inner n₂ t₂ ψb ψd := by
+  unfold inner2 inner
+  rw [← integrate2_product]
+  congr 1
+  funext p q
+  ring
+
+/-- Coefficient-space Gram entry of basis-expansion data on a tensor-product basis: `⟨Σ c_k B_k, Σ d_l B_l⟩` is
+bilinear in the coefficients with the pairwise 2-D inner products of the basis surfaces (any `K`, any product grid). -/
+theorem inner2_bilinear (n₁ n₂ K : ℕ) (t₁ t₂ : ℕ → ℚ) (B : ℕ → ℕ → ℕ → ℚ) (c d : ℕ → ℚ) :
+    inner2 n₁ n₂ t₁ t₂ (fun p q => ∑ k ∈ range K, c k * B k p q) (fun p q => ∑ l ∈ range K, d l * B l p q)
+      = ∑ k ∈ range K, ∑ l ∈ range K, c k * d l * inner2 n₁ n₂ t₁ t₂ (B k) (B l) := by
+  unfold inner2
+  have hlin : ∀ (Y : ℕ → ℕ → ℕ → ℚ) (w : ℕ → ℚ) (M : ℕ),
+      integrate2 n₁ n₂ t₁ t₂ (fun p q => ∑ m ∈ range M, w m * Y m p q)
+        = ∑ m ∈ range M, w m * integrate2 n₁ n₂ t₁ t₂ (Y m) := by
+    intro Y w M
+    induction M with
+    | zero =>
+      simp only [Finset.range_zero, Finset.sum_empty]
+      unfold integrate2 trapz
+      simp
+    | succ M ih =>
+      simp only [Finset.sum_range_succ]
+      rw [← ih]
+      unfold integrate2
+      have h1 : ∀ b, trapz n₁ t₁ (fun a => ∑ m ∈ range M, w m * Y m a b + w M * Y M a b)
+          = 1 * trapz n₁ t₁ (fun a => ∑ m ∈ range M, w m * Y m a b) + w M * trapz n₁ t₁ (fun a => Y M a b) := by
+        intro b
+        rw [← trapz_linear]
+        congr 1; funext a; ring
+      simp_rw [h1]
+      have h2 := trapz_linear n₂ t₂ (fun b => trapz n₁ t₁ (fun a => ∑ m ∈ range M, w m * Y m a b))
+        (fun b => trapz n₁ t₁ (fun a => Y M a b)) 1 (w M)
+      rw [h2]; ring
+  have hprod : ∀ p q, (∑ k ∈ range K, c k * B k p q) * (∑ l ∈ range K, d l * B l p q)
+      = ∑ k ∈ range K, c k * (∑ l ∈ range K, d l * (B k p q * B l p q)) := by
+    intro p q
+    rw [Finset.sum_mul]
+    apply Finset.sum_congr rfl
+    intro k _
+    rw [Finset.mul_sum, Finset.mul_sum]
+    apply Finset.sum_congr rfl
+    intro l _
+    ring
+  simp_rw [hprod]
+  rw [hlin (fun k p q => ∑ l ∈ range K, d l * (B k p q * B l p q)) c K]
+  apply Finset.sum_congr rfl
+  intro k _
+  rw [hlin (fun l p q => B k p q * B l p q) d K, Finset.mul_sum]
+  apply Finset.sum_congr rfl
+  intro l _
+  ring
+
 /-! ### The quadrature weights *as the source has them now*
 
 `FDAModel/Generated/QuadWeights.lean` is regenerated from `FDApy/misc/utils.py` `_integration_weights` on every run
@@ -458,6 +518,8 @@ harmless variants of the source (`/ 2` for `0.5 *`, `x[2:]` for `x[2:len(x)]`, `
 macro "np_close" : tactic => `(tactic| first | done | ring | (ring_nf; done) | (field_simp; ring))
 
 set_option linter.unusedSimpArgs false in
+set_option linter.unnecessarySeqFocus false in
+set_option linter.unusedTactic false in
 open FDA.Np FDA.Generated in
 /-- For every grid with `n ≥ 2` points the `"trapz"` branch of the source builds, without any shape error, an array
 of `n` entries which are the model's `trapzW`. -/
@@ -481,6 +543,8 @@ theorem trapzW_src_eq_model (n : ℕ) (x : ℕ → ℚ) (hn : 2 ≤ n) :
         simp [trapzWSrc, smul, divc, concat, append, single, sub, slice] <;> np_close
 
 set_option linter.unusedSimpArgs false in
+set_option linter.unnecessarySeqFocus false in
+set_option linter.unusedTactic false in
 open FDA.Np FDA.Generated in
 /-- Same for the `"simpson"` branch and the model's `simpsonW`. -/
 theorem simpsonW_src_eq_model (n : ℕ) (x : ℕ → ℚ) (hn : 2 ≤ n) :
